@@ -19,7 +19,7 @@ def run(tier, seed):
         sys.path.insert(0, os.path.join(ROOT, 'harness'))
         nops = 16
         for t in range(3):
-            for opa in (range(nops) if not quick else [0, 3, 5, 13, 15]):
+            for opa in (range(nops) if not quick else [3, 5, 14, 15]):
                 s = src.replace('__T__', str(t)).replace('__OPA__', str(opa))
                 if quick:
                     s = s.replace('sel(b0, b1, b2, b3) < NM and sel(k0, k1, k2, k3) < NS', 'sel(b0, b1, b2, b3) in (3, 5, 12, 15) and sel(k0, k1, k2, k3) in (0, 9, 12)')
